@@ -133,7 +133,7 @@ func vC01GenPin(r *vRand, ncids int, stream int, origins bool) *vC01Pin {
 		case 3:
 			p.Type = []uint64{0, 1, 3, 6, 24, 32, 1 << 40, 1<<63 + 5}[r.intn(8)]
 		case 4:
-			p.Mode = []int{0, 1, 2, -1}[r.intn(4)]
+			p.Mode = []int{0, 1, 2, 3}[r.intn(4)]
 		default:
 			p.HasExp = true
 			p.ExpS = []int64{0, 0, -1, 1, -1700000000, 1 << 33}[r.intn(6)]
@@ -206,6 +206,19 @@ func vC01Gen(r *vRand) vC01Case {
 		default:
 			return vC01Cmd{Op: "junk", Raw: r.intn(3)}
 		}
+	}
+	if r.chance(7) {
+		// persist-race shape: a snapshot is requested, entries rewriting two cids twice are applied, only then the
+		// snapshot is written; the node restarts from it and replays
+		c.Cmds = append(c.Cmds, vC01Cmd{Op: "pin", Node: 0, Pin: vC01GenPin(r, ncids, 0, false)})
+		c.Cmds = append(c.Cmds, vC01Cmd{Op: "hold", Node: 0})
+		for i := 0; i < 4+r.intn(3); i++ {
+			p := vC01GenPin(r, 2, 0, false)
+			p.Cid = i % 2
+			c.Cmds = append(c.Cmds, vC01Cmd{Op: "pin", Node: 0, Pin: p})
+		}
+		c.Cmds = append(c.Cmds, vC01Cmd{Op: "release"}, vC01Cmd{Op: "restart", Node: 0}, vC01Cmd{Op: "sync"})
+		return c
 	}
 	n := 5 + r.intn(14)
 	if c.N == 3 && r.chance(45) {
